@@ -164,11 +164,26 @@ where
     >(
         i: S,
     ) -> IResult<S, Vec<Tree>, E> {
-        use nom::character::complete::{char, none_of, space0};
+        use nom::{
+            bytes::complete::take_while_m_n,
+            character::complete::{char, space0},
+            AsChar,
+        };
         context(
             "trees",
             cut(separated_list0(
-                delimited(space0, char('\n'), pair(S::sp, peek(none_of(" \n")))),
+                delimited(
+                    space0,
+                    char('\n'),
+                    pair(
+                        S::sp,
+                        // one item that is not a separator; `none_of` would skip the UTF-8 length
+                        // of a byte >= 0x80 and slice past the end of a byte input
+                        peek(take_while_m_n(1, 1, |c: S::Item| {
+                            !" \n".contains(c.as_char())
+                        })),
+                    ),
+                ),
                 Self::parse_tree,
             )),
         )
